@@ -387,8 +387,11 @@ func ProcessIndexRequestPle(tsNow uint64, indexNameIn string, flush bool,
 	}
 
 	for _, ple := range pleArray {
-		ple.SetTimestamp(utils.ExtractTimeStamp(ple.GetRawJson(), &tsKey))
-		if ple.GetTimestamp() == 0 {
+		// the raw json's own timestamp wins; otherwise keep the time the protocol handler already
+		// put on the event (e.g. OTLP time_unix_nano), and only then fall back to the arrival time
+		if ts := utils.ExtractTimeStamp(ple.GetRawJson(), &tsKey); ts != 0 {
+			ple.SetTimestamp(ts)
+		} else if ple.GetTimestamp() == 0 {
 			ple.SetTimestamp(tsNow)
 		}
 	}
